@@ -543,3 +543,27 @@ SPECS += [
          extra_params={"isFile": "Lean:(α → Bool)", "fsRemove": "Lean:(φ → α → Except Err φ)"}, ret="Unit",
          conds={"isinstance(d, str)": "(isFile d = true)"}, calls={"os.remove": FS_REMOVE}, props=["C10"]),
 ]
+
+
+# ---- sdk/input.py : Input.exchange_info — the consumer's side of the metadata exchange (C07 C06) ---------------------
+# the input's own metadata (given at construction or with the call, never both) and the source's answer are read as flat
+# fields; building the merged info (`copy_with`) and the grid transformation stay with the hand model (`mergeInfo`)
+SPECS += [
+    dict(lean="Input_exchange_info", path="sdk/input.py", qual="Input.exchange_info", group="Exchange",
+         fields={"_in_info_exchanged": "Bool", "has_info": "Bool"}, params={}, ignore_params=["info"],
+         ignore_fields=["_input_info", "_transform"],
+         extra_params={"info_given": "Bool", "own_grid": "Opt[Obj]", "own_mask": MASK, "own_units": "Opt[Obj]",
+                       "src_grid": "Opt[Obj]", "src_mask": MASK, "src_units": "Opt[Obj]",
+                       "gridCompat": "Lean:(Nat → (Option Nat) → Bool)", "unitsCompat": "Lean:(Nat → Nat → Bool)", "masksEqual": MASKEQ},
+         ret="Unit", return_unit=["self._input_info"],
+         conds={"self._input_info is None": "(self_has_info = false)", "self._input_info is not None": "(self_has_info = true)",
+                "info is None": "(info_given = false)", "info is not None": "(info_given = true)"},
+         assume_false=["not isinstance(info, Info)"],
+         calls={"info.accepts": {"lean": "Info_accepts",
+                                 "args": ["own_grid", "own_mask", "own_units", "False", "src_grid", "src_mask", "src_units",
+                                          "gridCompat", "unitsCompat", "masksEqual"],
+                                 "argtypes": ["Opt[Obj]", MASK, "Opt[Obj]", "Bool", "Opt[Obj]", MASK, "Opt[Obj]",
+                                              "Lean:(Nat → (Option Nat) → Bool)", "Lean:(Nat → Nat → Bool)", MASKEQ],
+                                 "ret": "Bool"}},
+         drop_assign=["info", "src_info", "fail_info", "self._input_info", "self._transform"], props=["C07", "C06"]),
+]
